@@ -141,6 +141,82 @@ func splitSpec(t *tape.Tape, s *workload.TypeSpec) (base, ext string, ok bool) {
 	return "", "", false
 }
 
+// c16TargetedPoison breaks one rule through an extension of a definition of
+// the set: in a split arrangement the extension may arrive in a later load
+// than the definitions it invalidates.
+func c16TargetedPoison(t *tape.Tape, frags []*c16Frag) *c16Frag {
+	var ifaces, objs, enums, unions []*c16Frag
+	for _, f := range frags {
+		if f.spec == nil {
+			continue
+		}
+		switch f.spec.Kind {
+		case "interface":
+			ifaces = append(ifaces, f)
+		case "object":
+			objs = append(objs, f)
+		case "enum":
+			enums = append(enums, f)
+		case "union":
+			unions = append(unions, f)
+		}
+	}
+	for tries := 0; tries < 6; tries++ {
+		switch t.Draw(6) {
+		case 0: // an interface gains a field its implementers do not have
+			for _, it := range ifaces {
+				for _, o := range objs {
+					for _, im := range o.spec.Implements {
+						if im == it.name {
+							return &c16Frag{name: "<poison:extend_interface_breaks_implementer>", bad: true, refs: []string{it.name, o.name},
+								text: "extend interface " + it.name + " {\n  zzAdded: Int\n}\n"}
+						}
+					}
+				}
+			}
+		case 1: // an object claims an interface it does not satisfy
+			if len(ifaces) > 0 && len(objs) > 0 {
+				it, o := ifaces[t.Draw(len(ifaces))], objs[t.Draw(len(objs))]
+				has := false
+				for _, im := range o.spec.Implements {
+					if im == it.name {
+						has = true
+					}
+				}
+				if !has && len(it.spec.Fields) > 0 {
+					return &c16Frag{name: "<poison:extend_type_implements_unsatisfied>", bad: true, refs: []string{it.name, o.name},
+						text: "extend type " + o.name + " implements " + it.name + " {\n  zzOther: Int\n}\n"}
+				}
+			}
+		case 2: // a union gains a member that is not an object
+			if len(unions) > 0 && len(enums) > 0 {
+				u, e := unions[t.Draw(len(unions))], enums[t.Draw(len(enums))]
+				return &c16Frag{name: "<poison:extend_union_with_enum>", bad: true, refs: []string{u.name, e.name}, text: "extend union " + u.name + " = " + e.name + "\n"}
+			}
+		case 3: // an enum value twice
+			if len(enums) > 0 {
+				e := enums[t.Draw(len(enums))]
+				if len(e.spec.Values) > 0 {
+					return &c16Frag{name: "<poison:extend_enum_duplicate_value>", bad: true, refs: []string{e.name}, text: "extend enum " + e.name + " {\n  " + e.spec.Values[0] + "\n}\n"}
+				}
+			}
+		case 4: // a field of an undefined type
+			if len(objs) > 0 {
+				o := objs[t.Draw(len(objs))]
+				return &c16Frag{name: "<poison:extend_type_undefined_ref>", bad: true, refs: []string{o.name}, text: "extend type " + o.name + " {\n  zzBad: NopeNope\n}\n"}
+			}
+		case 5: // a field the object already has
+			if len(objs) > 0 {
+				o := objs[t.Draw(len(objs))]
+				if len(o.spec.Fields) > 0 {
+					return &c16Frag{name: "<poison:extend_type_duplicate_field>", bad: true, refs: []string{o.name}, text: "extend type " + o.name + " {\n  " + o.spec.Fields[0].Name + ": Int\n}\n"}
+				}
+			}
+		}
+	}
+	return nil
+}
+
 type c16Arr struct {
 	kind  string
 	loads [][]string // documents per load, each a list of fragment texts
@@ -209,7 +285,7 @@ func c16Load(t *tape.Tape, a *c16Arr) (r c16Result) {
 }
 
 func (c C16) Run(t *tape.Tape, opt core.RunOpt) (res core.Result) {
-	g := &workload.Gen{T: t, St: &workload.SymTab{ByName: map[string]*workload.TInfo{}}}
+	g := &workload.Gen{T: t, St: &workload.SymTab{ByName: map[string]*workload.TInfo{}}, CaseTwins: t.Bool(1, 3)}
 	n := 3 + t.Draw(8)
 	var frags []*c16Frag
 	for i := 0; i < n; i++ {
@@ -224,12 +300,39 @@ func (c C16) Run(t *tape.Tape, opt core.RunOpt) (res core.Result) {
 			g.St.Dirs = append(g.St.Dirs, f.Spec.Name)
 		}
 	}
+	extSchema := false
 	illFormed := t.Bool(1, 4)
 	if illFormed {
-		p := g.Poison()
-		frags = append(frags, &c16Frag{name: "<poison:" + p.Kind + ">", text: p.Text, bad: true})
+		if tp := c16TargetedPoison(t, frags); tp != nil && t.Bool(2, 3) {
+			frags = append(frags, tp)
+		} else {
+			p := g.Poison()
+			frags = append(frags, &c16Frag{name: "<poison:" + p.Kind + ">", text: p.Text, bad: true})
+		}
 	}
-	if t.Bool(1, 4) && g.St.ByName["Query"] == nil {
+	// operation roots named through an extension of the derived schema (no
+	// schema block): "extend schema { mutation: T7 }"
+	if !illFormed && t.Bool(1, 5) {
+		hasQ, hasM := false, false
+		var objs []*c16Frag
+		for _, f := range frags {
+			switch {
+			case f.name == "Query":
+				hasQ = true
+			case f.name == "Mutation" || f.name == "Subscription":
+				hasM = true
+			case f.spec != nil && f.spec.Kind == "object":
+				objs = append(objs, f)
+			}
+		}
+		if hasQ && !hasM && len(objs) > 0 {
+			o := objs[t.Draw(len(objs))]
+			which := []string{"mutation", "subscription"}[t.Draw(2)]
+			frags = append(frags, &c16Frag{name: "<extend schema>", text: "extend schema {\n  " + which + ": " + o.name + "\n}\n", refs: []string{"Query", o.name}})
+			extSchema = true
+		}
+	}
+	if !extSchema && t.Bool(1, 4) && g.St.ByName["Query"] == nil {
 		hasQ := false
 		for _, f := range frags {
 			if f.name == "Query" {
